@@ -5,6 +5,7 @@ import AwsVerif.Proofs.C20.Pending
 import AwsVerif.Proofs.C20.WrapStep
 import AwsVerif.Proofs.C20.Demo
 import AwsVerif.Proofs.C20.Mutex
+import AwsVerif.Proofs.C20.NoLostStep
 /-!
 # C20 — threads run once, run their exit callbacks, managed threads all get joined
 
@@ -150,7 +151,7 @@ pending list or the timeout, notifies or starts a condition wait owns `s_managed
 waiting on the condition variable does not own it.  (2) The lock is never an obstacle: whenever the lock is
 held, its holder has an enabled step (nothing blocks inside a critical section, the wait releases the lock), so
 any thread blocked on `lock` will be able to proceed.  Missing for the full statement: progress of the `join`
-chains and of the join-all condition wait (needs the hand-over order and a lost-wake-up argument). -/
+chains (needs the hand-over order); the condition wait is covered by `c20_no_lost_wakeup`. -/
 theorem c20_no_deadlock_partial (P : Prog) (wf : WF P) (s : State) (h : Reachable P s) :
     (∀ t i r, (s.th t).code = i :: r → i.inCS = true → s.lockOwner = some t ∧ (s.th t).waiting = false) ∧
     (∀ t, (s.th t).waiting = true → s.lockOwner ≠ some t) ∧
@@ -192,6 +193,29 @@ theorem c20_no_deadlock_partial (P : Prog) (wf : WF P) (s : State) (h : Reachabl
       unfold step
       rcases hst with hs | hs | hs <;> simp only [hs, hcd] <;> exact hen
 
+/-- **No lost wake-up** (second proved part of c20_no_deadlock; programs in which only the main thread calls
+join-all).  Only the main thread ever waits on `s_managed_thread_signal`.  Whenever it is blocked in the untimed
+condition wait and has not been notified (nor spuriously woken), then either the count is still ≥ 2 — the wait
+predicate `count ≤ 1` is false, so waiting is right — or the thread holding the lock has just decremented the
+count and its very next instruction is the notify.  In particular, in a state where the lock is free an
+un-notified waiter implies count ≥ 2: a decrement to ≤ 1 can never be missed.  Every `count--` is immediately
+followed by the notify. -/
+theorem c20_no_lost_wakeup (P : Prog) (wf : WF P) (hja : ∀ k, k ≠ 0 → Action.joinAll ∉ P.body k) (s : State)
+    (h : Reachable P s) :
+    (∀ t, t ≠ 0 → (s.th t).waiting = false) ∧
+    ((s.th 0).waiting = true → (s.th 0).woken = false → (s.th 0).deadline = none →
+      2 ≤ s.count ∨ ∃ o r, s.lockOwner = some o ∧ (s.th o).code = Instr.signal :: r) ∧
+    ((s.th 0).waiting = true → (s.th 0).woken = false → (s.th 0).deadline = none → s.lockOwner = none → 2 ≤ s.count) ∧
+    (∀ t r, (s.th t).code = Instr.decCount :: r → ∃ r', r = Instr.signal :: r') := by
+  have hw := wakeInv_reachable P wf.n_pos wf.main hja s h
+  refine ⟨fun t ht => (hw.nowait t ht).2, hw.lw.lw, fun h1 h2 h3 h4 => ?_, fun t r hcd => ?_⟩
+  · rcases hw.lw.lw h1 h2 h3 with hA | ⟨o, r, ho, _⟩
+    · exact hA
+    · rw [h4] at ho; cases ho
+  · have := hw.decsig t
+    rw [hcd] at this
+    exact this.1
+
 /-- the snapshot taken by a join-all call is exactly the set of managed threads created so far -/
 theorem c20_join_all_snapshot (P : Prog) (s : State) (k : Nat) :
     k ∈ launchedManaged P s P.n → P.managed k = true ∧ (s.th k).status ≠ .notCreated ∧ k < P.n :=
@@ -199,12 +223,13 @@ theorem c20_join_all_snapshot (P : Prog) (s : State) (k : Nat) :
 
 /-! ### The hypotheses are satisfiable: a concrete execution reaching a successful join-all -/
 
-/-- main launches two managed threads (the first registers two at-exit callbacks and launches the second) and
+/-- main launches two managed threads (the first one pinned to a cpu that cannot be honoured: its first
+`pthread_create` fails and the launch is retried unpinned; it registers two at-exit callbacks and launches the second) and
 calls join-all -/
 def demo : Prog :=
   { n := 3
     managed := fun k => k == 1 || k == 2
-    body := fun k => if k = 0 then [.launch 1, .joinAll, .getCount] else if k = 1 then [.atexit 7, .atexit 8, .launch 2] else [] }
+    body := fun k => if k = 0 then [.launch 1 true 1, .joinAll, .getCount] else if k = 1 then [.atexit 7, .atexit 8, .launch 2 false 0] else [] }
 
 example : WF demo := ⟨by decide, by decide⟩
 
